@@ -227,3 +227,10 @@ func (c Case) Summary() map[string]any {
 	}
 	return map[string]any{"program": c.Text, "args": strings.Join(args, ", ")}
 }
+
+// Exemplar describes a hand-written regression case.
+type Exemplar struct {
+	Name string
+	Body *lang.Expr
+	Args []*lang.Expr
+}
